@@ -90,7 +90,9 @@ static void blocks_for_size(size_t n, int pages_wanted, int large) {
   while (np < MAXB) { void* p = mi_malloc(n); if (!p) break; ps[np++] = p; mi_page_t* pg = _mi_ptr_page(p); int k; for (k = 0; k < nseen; k++) if (seen[k] == pg) break; if (k == nseen) { if (nseen < 8) seen[nseen++] = pg; if (nseen >= pages_wanted) break; } if (large && np >= pages_wanted) break; }
   size_t bs = mi_usable_size(ps[0]);
   for (int i = 0; i < np; i++) { if (np > 600 && (i % (np / 300 + 1)) != 0 && i != np - 1 && i > 2) continue;
-    size_t offs[6] = { 0, 1, bs / 2, bs - 1, bs > 16 ? 15 : 0, bs > 4096 ? 4096 : 0 }; for (int k = 0; k < 6; k++) if (offs[k] < bs) check_block_addr(ps[i], n, offs[k], large); }
+    size_t offs[6] = { 0, 1, bs / 2, bs - 1, bs > 16 ? 15 : 0, bs > 4096 ? 4096 : 0 }; for (int k = 0; k < 6; k++) if (offs[k] < bs && offs[k] < MI_BLOCK_ALIGNMENT_MAX) check_block_addr(ps[i], n, offs[k], large);
+    // interior pointers are supported up to MI_BLOCK_ALIGNMENT_MAX into a block (that is what an over-aligned allocation can produce): probe the slice boundaries up to there
+    if (large) { static const size_t sl[] = { 1, 2, 63, 64, 127, 128, 200, 254, 255 }; for (size_t k = 0; k < sizeof sl / sizeof *sl; k++) { size_t o = sl[k] * MI_SEGMENT_SLICE_SIZE; if (o < bs && o < MI_BLOCK_ALIGNMENT_MAX) { check_block_addr(ps[i], n, o, large); if (o + 100 < bs && o + 100 < MI_BLOCK_ALIGNMENT_MAX) check_block_addr(ps[i], n, o + 100, large); if (o >= 8) check_block_addr(ps[i], n, o - 8, large); } } } }
   for (int i = 0; i < np; i++) mi_free(ps[i]);
 }
 static void check_align(uint64_t x, uint64_t a) {
@@ -187,7 +189,7 @@ int main(int argc, char** argv) {
     blocks_for_size(bs, 3, 0);
 #endif
   }
-  { static const size_t slices[] = { 2, 3, 5, 8, 13, 16, 31, 64, 100, 127, 200 }; for (size_t i = 0; i < sizeof slices / sizeof *slices; i++) blocks_for_size(slices[i] * MI_SEGMENT_SLICE_SIZE - 4096, 3, 1); }
+  { static const size_t slices[] = { 2, 3, 5, 8, 13, 16, 31, 64, 100, 127, 200, 255, 256, 257, 300, 511, 700 }; for (size_t i = 0; i < sizeof slices / sizeof *slices; i++) blocks_for_size(slices[i] * MI_SEGMENT_SLICE_SIZE - 4096, 3, 1); }
   sample("addr 112 55 (every bin size: blocks on 3 pages x interior offsets {0,1,15,bs/2,4096,bs-1}: _mi_ptr_segment/_mi_ptr_page/_mi_page_ptr_unalign recover page and block start)");
   // ---- generated 64-bit operands
   long N = thorough ? 4000000 : 300000;
